@@ -180,7 +180,7 @@ class DT(Inverter):
                 response = await self._read_from_socket(self._READ_DEVICE_MODEL)
                 response = response.response_data()
                 self.model_name = response[0:16].decode("ascii").rstrip('\x00').strip()
-            except InverterError as e:
+            except (InverterError, UnicodeDecodeError) as e:
                 logger.debug("No model name sent from the inverter.")
 
         # Modbus registers from 30001 - 30040
